@@ -719,7 +719,7 @@ func signed(d int64) string {
 func init() {
 	register(&PropSpec{
 		ID:          "C09",
-		Explanation: "Decides comparator totality per key (path enumeration over Less with the ordering domain), comparator sibling agreement (every arm of compare asserts both operands to the same type and decides both directions), operator nesting and argument wiring of Sort/Offset/Limit in every planner path, and the counter predicates of limit/offset (affine normal form). Added clauses: a top-level OFFSET never reaches the partitions of a pushed-down query (known finding K6); sub-query ORDER/LIMIT/OFFSET forbid pushdown at every nesting level (= C11.b); core.FlatRow values are built only where the field list ORDER BY needs can be bound.",
+		Explanation: "Decides comparator totality per key (path enumeration over Less with the ordering domain), comparator sibling agreement (every arm of compare asserts both operands to the same type and decides both directions), operator nesting and argument wiring of Sort/Offset/Limit in every planner path, and the counter predicates of limit/offset (affine normal form). Added clauses: a top-level OFFSET never reaches the partitions of a pushed-down query (known finding K6); sub-query ORDER/LIMIT/OFFSET forbid pushdown at every nesting level (= C11.b); core.FlatRow values are built only where the field list ORDER BY needs can be bound. Further clause: every planner returns the result of addOrderLimitOffset itself (nothing filters after the slice of the order).",
 		NotDecided:  []string{"sort.Sort itself (trusted)", "value comparison of mixed-type dimensions", "precision of numeric comparison (values)"},
 		Assumptions: []string{"compare(x,y) < 0 iff x sorts before y (its shape is checked by C09.b, its arithmetic is not)"},
 		Rules: []func(*Ctx){func(c *Ctx) { ruleC09a(c, "C09.a") }, func(c *Ctx) { ruleC09b(c, "C09.b") }, func(c *Ctx) { ruleC09c(c, "C09.c") }, func(c *Ctx) { ruleC09d(c, "C09.d") }, func(c *Ctx) { ruleC09e(c, "C09.e") }, func(c *Ctx) {
